@@ -85,7 +85,9 @@ func (d *Driver) Call(op M) (M, error) {
 			continue
 		}
 		if e, ok := m["error"]; ok {
-			return nil, fmt.Errorf("driver error: %v (op %s)", e, line)
+			// the model cannot process this op (for example: the regenerated schema no longer has the shape the op was written for).
+			// That is a disagreement with an implementation that can, not a failure of the harness.
+			return M{"model_error": fmt.Sprint(e)}, nil
 		}
 		return m, nil
 	}
